@@ -323,6 +323,14 @@ func Send(method, rawurl string, options ...SendOption) (*http.Response, error) 
 		return nil, err
 	}
 
+	if closer, ok := opts.body.(io.Closer); ok && req.GetBody == nil && !opts.httpFallbackDisabled {
+		// The transport closes the request body even if the https attempt fails
+		// before sending anything, which would leave the http fallback with a
+		// closed body (e.g. a file). Keep it open until Send returns.
+		req.Body = io.NopCloser(opts.body)
+		defer closer.Close() //nolint:errcheck
+	}
+
 	client := &http.Client{
 		Timeout:       opts.timeout,
 		CheckRedirect: opts.redirect,
@@ -337,7 +345,7 @@ func Send(method, rawurl string, options ...SendOption) (*http.Response, error) 
 		// TODO (@evelynl): disable retry after tls migration.
 		if err != nil && req.URL.Scheme == "https" && !opts.httpFallbackDisabled {
 			originalErr := err
-			resp, err = fallbackToHTTP(client, method, opts)
+			resp, err = fallbackToHTTP(client, method, opts, req)
 			if err != nil {
 				// Sometimes the request fails for a reason unrelated to https.
 				// To keep this reason visible, we always include the original
@@ -498,13 +506,26 @@ func rewindBody(req *http.Request) bool {
 }
 
 func fallbackToHTTP(
-	client *http.Client, method string, opts *sendOptions,
+	client *http.Client, method string, opts *sendOptions, primary *http.Request,
 ) (*http.Response, error) {
 	req, err := newRequest(method, opts)
 	if err != nil {
 		return nil, err
 	}
 	req.URL.Scheme = "http"
+
+	// opts.body is consumed by the first fallback request. Every fallback
+	// request must carry the complete original body, so replay it from the
+	// snapshot the primary request took before anything was sent.
+	if primary.GetBody != nil {
+		body, err := primary.GetBody()
+		if err != nil {
+			return nil, fmt.Errorf("get body: %s", err)
+		}
+		req.Body = body
+		req.GetBody = primary.GetBody
+		req.ContentLength = primary.ContentLength
+	}
 
 	return client.Do(req)
 }
